@@ -57,10 +57,14 @@ struct Globals {
     --live;
   }
   // Called at each throwing-capable event
+  std::string lastInjected;  // which throwing-capable event the fault injection made throw in the current step
   void tick(const char *what) {
     ++throwingEvents;
     if (countdown == 0) {
       countdown = -1;
+      lastInjected = what;
+      std::printf("INJ %s\n", what);  // survives a crash of the operation (stdout is flushed)
+      std::fflush(stdout);
       throw std::runtime_error(std::string("injected:") + what);
     }
     if (countdown > 0) --countdown;
@@ -69,6 +73,9 @@ struct Globals {
     ++throwingEvents;
     if (countdown == 0) {
       countdown = -1;
+      lastInjected = "allocate";
+      std::printf("INJ allocate\n");
+      std::fflush(stdout);
       throw std::bad_alloc();
     }
     if (countdown > 0) --countdown;
@@ -81,7 +88,8 @@ inline Globals &G() {
 
 // ---------------------------------------------------------------------------------------------
 // Element types.  Cat: 0 = NTR (neither trivially copyable nor declared relocatable; remembers its own address),
-//                       1 = TR  (not trivially copyable, declares trivially_relocatable = true_type).
+//                       1 = TR  (not trivially copyable, declares trivially_relocatable = true_type),
+//                       2 = NTM (as NTR, and its move constructor / move assignment are throwing-capable events).
 template <int Cat>
 struct El {
   int v;
@@ -103,8 +111,9 @@ struct El {
     id = G().newId();
     ++G().nCopyC;
   }
-  El(El &&o) noexcept : v(o.v), id(-1), self(this) {
+  El(El &&o) noexcept(Cat != 2) : v(o.v), id(-1), self(this) {
     o.chk("move-construct-from");
+    if (Cat == 2) G().tick("move-construct");
     id = G().newId();
     ++G().nMoveC;
     o.v = kMoved;
@@ -117,9 +126,10 @@ struct El {
     ++G().nCopyA;
     return *this;
   }
-  El &operator=(El &&o) noexcept {
+  El &operator=(El &&o) noexcept(Cat != 2) {
     chk("move-assign-to");
     o.chk("move-assign-from");
+    if (Cat == 2 && this != &o) G().tick("move-assign");
     ++G().nMoveA;
     if (this == &o) {
       G().err("self-move-assign");
@@ -139,7 +149,7 @@ struct El {
       G().err(std::string(what) + ":outside-lifetime");
       return;
     }
-    if (Cat == 0 && self != this) G().err(std::string(what) + ":bitwise-moved-NTR");
+    if (Cat != 1 && self != this) G().err(std::string(what) + ":bitwise-moved-NTR");
   }
   // reading the value through the container (oracle): must be alive
   int value() const {
@@ -213,7 +223,7 @@ struct ElInfo {
 template <int Cat>
 struct ElInfo<El<Cat> > {
   static const bool instrumented = true;
-  static const char *cat() { return Cat == 1 ? "TR" : "NTR"; }
+  static const char *cat() { return Cat == 1 ? "TR" : (Cat == 2 ? "NTM" : "NTR"); }
 };
 
 // ---------------------------------------------------------------------------------------------
